@@ -134,6 +134,50 @@ fn main() {
             }
         }
     }
+    // ---- differential check of GroupCrdt::process / validate: whether an operation is accepted must depend only on the state
+    // at its declared dependencies. A replica that knows the whole history (several concurrent heads) and a fresh replica that
+    // processed nothing but the operation's ancestors must agree on accepting or rejecting it — for arbitrary candidate
+    // operations (valid or not, one or two dependencies) over random histories.
+    {
+        use p2panda_auth::group::{GroupAction, GroupMember};
+        use p2panda_auth::test_utils::{TestGroup, TestGroupState, TestOperation};
+        use std::collections::BTreeSet;
+        struct Lcg(u64);
+        impl Lcg { fn next(&mut self, k: usize) -> usize { self.0 = self.0.wrapping_mul(6364136223846793005).wrapping_add(1442695040888963407); ((self.0 >> 33) as usize) % k.max(1) } }
+        fn try_process(y: TestGroupState, op: &TestOperation) -> (TestGroupState, bool) { let keep = y.clone(); match TestGroup::process(y, op) { Ok(y2) => (y2, true), Err(_) => (keep, false) } }
+        let actors = ['A', 'B', 'C', 'D'];
+        let mut rng = Lcg(0x33);
+        for hist in 0..300u32 {
+            let create = TestOperation { id: 0, author: 'A', dependencies: vec![], group_id: 'G', action: GroupAction::Create { initial_members: vec![(GroupMember::Individual('A'), acc(3)), (GroupMember::Individual('B'), acc(3)), (GroupMember::Individual('C'), acc(1))] } };
+            let mut ops: Vec<TestOperation> = vec![create.clone()];
+            let mut anc: Vec<BTreeSet<u32>> = vec![BTreeSet::new()];   // strict ancestors per op id
+            let (mut full, _) = try_process(TestGroup::init(), &create);
+            for _ in 0..10 {
+                let id = ops.len() as u32;
+                // dependencies: the maximal elements of the ancestor closure of 1-2 random published operations
+                let picks: Vec<u32> = (0..1 + rng.next(2)).map(|_| rng.next(ops.len()) as u32).collect();
+                let mut closure: BTreeSet<u32> = BTreeSet::new();
+                for p_ in &picks { closure.insert(*p_); closure.extend(anc[*p_ as usize].iter().cloned()); }
+                let deps: Vec<u32> = closure.iter().cloned().filter(|x| !closure.iter().any(|y| anc[*y as usize].contains(x))).collect();
+                let author = actors[rng.next(4)];
+                let target = GroupMember::Individual(actors[rng.next(4)]);
+                let lv = [0u8, 1, 3][rng.next(3)];
+                let action = match rng.next(4) { 0 => GroupAction::Add { member: target, access: acc(lv) }, 1 => GroupAction::Remove { member: target }, 2 => GroupAction::Promote { member: target, access: acc(lv.max(1)) }, _ => GroupAction::Demote { member: target, access: acc(lv.min(1)) } };
+                let op = TestOperation { id, author, dependencies: deps.clone(), group_id: 'G', action };
+                // replica that processed only the ancestors (in creation order = a causal order)
+                let mut only = TestGroup::init();
+                for o in ops.iter().filter(|o| closure.contains(&o.id)) { only = try_process(only, o).0; }
+                let (_, ok_only) = try_process(only, &op);
+                let (full2, ok_full) = try_process(full.clone(), &op);
+                n += 1;
+                if ok_only != ok_full {
+                    rep("acceptance-depends-on-operations-outside-the-declared-dependencies", json!({"history": ops.iter().map(|o| format!("{o:?}")).collect::<Vec<_>>(), "candidate": format!("{op:?}"), "round": hist}),
+                        json!({"accepted_by_replica_with_only_the_ancestors": ok_only, "accepted_by_replica_with_the_whole_history": ok_full}), &["bounded-stand-in: GroupCrdt::validate"]);
+                }
+                if ok_only && ok_full { full = full2; let mut a: BTreeSet<u32> = closure.clone(); a.remove(&id); anc.push(a); ops.push(op); }
+            }
+        }
+    }
     println!("{}", json!({"summary": true, "evaluations": n, "distinct_nontrivial": n, "exhaustive": true,
         "rule": "real state::{add,remove,promote,demote} vs executable guards/effects of the statement, all states over identities {0,1,2} x 12 member states + absent, actors/targets {0..3}",
         "bound": "3 identities + 1 unknown, member_counter<=2, access_counter<=1, levels {Pull,Read,Manage}", "violating_classes": reported}));
